@@ -8,21 +8,17 @@ def check(pid, **kw):
     CHECKS[pid] = kw
 
 
-check('C07',
-      title='Checksum function computes the byte sum mod 256 within bounds',
-      level='exploration', engine='enum',
-      technique='exhaustive enumeration of a finite input lattice (sizes x offsets x lengths x contents) over the real calc_chksum, guard-page oracle',
-      design_ref='DESIGN.md §3 C07',
-      text='Every (buffer size, offset, length) triple up to the stated size is executed against the real calc_chksum with six content '
-           'patterns (and all contents for sizes <= 2), once with an inaccessible page directly after the permitted range and once with one '
-           'directly before it; the result is compared with a plain byte loop. Sizes cross the 8-byte stride, the 256-byte carry flush and 512.',
-      level_note='Exhaustive over the stated lattice only: contents are patterns, not all byte strings; sizes above the bound are not run. '
-                 'Trusted: the reference loop, mprotect/SIGSEGV as the out-of-range-read oracle.',
-      rule='case = (size, offset, len, content pattern[, hot byte]); all distinct by construction; non-trivial = size >= 8 (the 4-byte strided loop runs) or size-2 exhaustive contents',
-      assumptions=['x86-64: unaligned 32-bit loads are legal (UBSan alignment check off)', 'contents are drawn from 6 patterns + all contents for size<=2'],
-      parts=[dict(name='chksum', harness='c07_chksum', variant='san',
-                  quick=dict(args=['maxsize=300', 'hotmax=64'], deadline=90),
-                  thorough=dict(args=['maxsize=700', 'hotmax=700'], deadline=600))])
+
+def _load():
+    import os, importlib.util, sys
+    d = os.path.join(os.path.dirname(os.path.abspath(__file__)), 'checks')
+    sys.modules.setdefault('registry', sys.modules[__name__])
+    for f in sorted(os.listdir(d)):
+        if f.endswith('.py'):
+            spec = importlib.util.spec_from_file_location('checks_' + f[:-3], os.path.join(d, f))
+            m = importlib.util.module_from_spec(spec)
+            spec.loader.exec_module(m)
+
 
 # ---------------------------------------------------------------------------------------------------------
 NOT_APPLICABLE = {}
@@ -31,3 +27,5 @@ ENGINES = [
     dict(name='enum', path='engines/vh.hpp + harness/c0*_*.cpp', serves_properties=['C07'],
          kind_free_text='exhaustive enumeration of a stated finite input lattice over the real code, sharded over 16 processes; sanitizers and guard pages as oracles'),
 ]
+
+_load()
